@@ -118,4 +118,11 @@ descent reports (and the node itself) -/
 theorem C05_position_descent (v : JV) :
     nodesInner v = if isContainer v then contOnly (desc v) else desc v := nodesInner_eq v
 
+/-- **no index fault**: every index the slice code of get.go visits in the last position is an index of
+the array (`tv[i]` cannot panic); the inner position visits the same indexes (`innerIdx_rev`) or, with
+the `innerEmptySlice` deviation, the in-range index `start` -/
+theorem C05_no_index_fault (n : Nat) (s e t : Option Int) :
+    ∀ i ∈ modelIdx true n s e t, 0 ≤ i ∧ i < (n : Int) :=
+  fun i hi => ⟨modelIdx_nonneg true n s e t i hi, modelIdx_lt n s e t i hi⟩
+
 end OjgVerif.C05
